@@ -43,7 +43,7 @@ pub fn literal(v: &J) -> String {
         "text" => quote(&text_of(v)),
         "arr" => format!("array[{}]", v["xs"].as_array().unwrap().iter().map(literal).collect::<Vec<_>>().join(", ")),
         "ts" => { let f: Vec<i64> = v["f"].as_array().unwrap().iter().map(|x| x.as_i64().unwrap()).collect();
-                  format!("make_timestamp({}, {}, {}, {}, {}, {}, {}, 0)", f[0], f[1], f[2], f[3], f[4], f[5], f[6]) }
+                  format!("make_timestamp({}, {}, {}, {}, {}, {}, {})", f[0], f[1], f[2], f[3], f[4], f[5], f[6]) }
         "iv" => { let ms = v["ms"].as_i64().unwrap(); let s = ms / 1000; format!("('{}:{}:{}'::interval)", s / 3600, (s / 60) % 60, s % 60) }
         t => panic!("literal of {}", t)
     }
